@@ -279,8 +279,11 @@ void *parsec_info_set(parsec_info_object_array_t *oa, parsec_info_id_t iid, void
 {
     void *ret;
     parsec_ioa_resize_and_rdlock(oa, iid);
-    ret = oa->info_objects[iid];
-    oa->info_objects[iid] = info;
+    /* readers of the rwlock run concurrently: exchange atomically so that the value
+     * returned is the one that was replaced */
+    do {
+        ret = oa->info_objects[iid];
+    } while( !parsec_atomic_cas_ptr(&oa->info_objects[iid], ret, info) );
     parsec_atomic_rwlock_rdunlock(&oa->rw_lock);
     return ret;
 }
